@@ -66,7 +66,7 @@ impl FromStr for Speed {
         let value = s
             .parse::<f64>()
             .map_err(|_| format!("could not parse {} as a number", s))?;
-        if value < 0.0 {
+        if value < 0.0 || value.is_nan() {
             Err(format!(
                 "speed value {} invalid, must be strictly positive (0, +inf]",
                 value
